@@ -25,6 +25,9 @@ try:
     res["demo_unchanged_passes"] = rc == 0
     if rc != 0: res["demo_unchanged_out"] = o
     rc, o = run(["git", "apply", os.path.join(out, "patch.diff")])
+    if rc != 0:
+        rc, o = run(["git", "apply", "--3way", os.path.join(out, "patch.diff")])
+        res["patch_needed_3way"] = True
     res["patch_applies"] = rc == 0
     res["build"] = run(["go", "build", "./..."])[0] == 0 and run(["go", "build", "-tags", "verif", "./..."])[0] == 0
     rc, o = run(["go", "test", "-vet=off", "-count=1", "-run", runre, "./" + pkg])
